@@ -272,7 +272,7 @@ theorem hist_sync {sid : Nat} {sv sv' : Server} (hh : Hist sid sv sv') (h : Inv 
 theorem converges_hist_core {sid : Nat} {sv sv' : Server} (hh : Hist sid sv sv') (h : Inv sv) {s : Sess}
     (hs : sv.sess? sid = some s) (hen : s.subsEnabled = true) (hq : pend s = {})
     (hq' : ∀ s', sv'.sess? sid = some s' → pend s' = {}) (m : Mirror) (hm : MirrorOK sv s m) :
-    ∃ s' sent, sv'.sess? sid = some s' ∧ s'.core = s.core ∧ dataLines s' = dataLines s ++ sent.map dataText ∧
+    ∃ s' sent, sv'.sess? sid = some s' ∧ s'.vcore = s.vcore ∧ dataLines s' = dataLines s ++ sent.map dataText ∧
       MirrorOK sv' s' (applyMsgs m sent) := by
   obtain ⟨hsync, _⟩ := hist_sync hh h
   obtain ⟨evs, hsy⟩ := hsync s hs hen m
